@@ -415,7 +415,7 @@ theorem read_server_addresses_forget {rest buf : Bytes} (h : rest <:+ buf) :
   simp only [Exec.bind_eq, Exec.pure_eq]
   rw [Exec.forget_run]
   simp only [Exec.forget_bind, Exec.forget_val, forRange_forget, Exec.forget_ite, Exec.forget_err, forget_index]
-  rw [step_reader id (readU32 rest) _ (by rw [(read_uN_eq h).2.1, rdRes_forget]) id _ (fun e => ⟨e.2, rfl⟩)]
+  rw [step_reader id (readU32 rest) _ (by rw [(read_uN_eq h).2.1, rdRes_forget]) (fun x => x) _ (fun e => ⟨e.2, rfl⟩)]
   cases h1 : readU32 rest with
   | none => rfl
   | some x =>
@@ -445,7 +445,7 @@ theorem read_server_addresses_forget {rest buf : Bytes} (h : rest <:+ buf) :
     case hb =>
       intro i done rs hd hi hs
       simp only [addrSt]
-      rw [step_reader id (readU8 rs) _ (by rw [(read_uN_eq hs).2.2.2, rdRes_forget]) id _ (fun e => ⟨e.2, rfl⟩)]
+      rw [step_reader id (readU8 rs) _ (by rw [(read_uN_eq hs).2.2.2, rdRes_forget]) (fun x => x) _ (fun e => ⟨e.2, rfl⟩)]
       unfold readAddr1
       cases h8 : readU8 rs with
       | none => rfl
@@ -457,14 +457,14 @@ theorem read_server_addresses_forget {rest buf : Bytes} (h : rest <:+ buf) :
           show Src.renetcode.NETCODE_ADDRESS_NONE = C.NETCODE_ADDRESS_NONE from rfl, len_repeat]
         by_cases h4 : ty = C.NETCODE_ADDRESS_IPV4
         · simp only [h4, decide_true, if_true]
-          rw [step_reader toNats (readN 4 r2) _ (read_exact_forget hs2 4) id _ (fun e => ⟨e.2, rfl⟩)]
+          rw [step_reader toNats (readN 4 r2) _ (read_exact_forget hs2 4) (fun x => x) _ (fun e => ⟨e.2, rfl⟩)]
           cases h2 : readN 4 r2 with
           | none => rfl
           | some y =>
             obtain ⟨ip, r3⟩ := y
             have hs3 : r3 <:+ buf := readN_suffix' h2 hs2
             simp only [rdBind]
-            rw [step_reader id (readU16 r3) _ (by rw [(read_uN_eq hs3).2.2.1, rdRes_forget]) id _ (fun e => ⟨e.2, rfl⟩)]
+            rw [step_reader id (readU16 r3) _ (by rw [(read_uN_eq hs3).2.2.1, rdRes_forget]) (fun x => x) _ (fun e => ⟨e.2, rfl⟩)]
             cases h3 : readU16 r3 with
             | none => rfl
             | some z =>
@@ -474,14 +474,14 @@ theorem read_server_addresses_forget {rest buf : Bytes} (h : rest <:+ buf) :
         · simp only [h4, decide_false, Bool.false_eq_true, if_false]
           by_cases h6 : ty = C.NETCODE_ADDRESS_IPV6
           · simp only [h6, decide_true, if_true]
-            rw [step_reader toNats (readN 16 r2) _ (read_exact_forget hs2 16) id _ (fun e => ⟨e.2, rfl⟩)]
+            rw [step_reader toNats (readN 16 r2) _ (read_exact_forget hs2 16) (fun x => x) _ (fun e => ⟨e.2, rfl⟩)]
             cases h2 : readN 16 r2 with
             | none => rfl
             | some y =>
               obtain ⟨ip, r3⟩ := y
               have hs3 : r3 <:+ buf := readN_suffix' h2 hs2
               simp only [rdBind]
-              rw [step_reader id (readU16 r3) _ (by rw [(read_uN_eq hs3).2.2.1, rdRes_forget]) id _ (fun e => ⟨e.2, rfl⟩)]
+              rw [step_reader id (readU16 r3) _ (by rw [(read_uN_eq hs3).2.2.1, rdRes_forget]) (fun x => x) _ (fun e => ⟨e.2, rfl⟩)]
               cases h3 : readU16 r3 with
               | none => rfl
               | some z =>
